@@ -19,7 +19,7 @@ def ir_rules(run, u, r_static, r_lookup, r_copy, r_access):
     dv = {}
     for f in fns["dynamic_vptr"]:
         ta = re.search(r"::dynamic_vptr<(.*)>\(", f.dname)
-        if ta:
+        if ta and re.match(r"^(const\s+)?yw::[A-Z]\w*(\s+const)?$", ta.group(1).strip()):
             dv[vptr.pointee(ta.group(1))] = f
     indirect = pol in witness.INDIRECT
     for f in fns["ctor_obj"] + fns["final"]:
